@@ -363,6 +363,10 @@ DOWNREF:
 
 		switch refable := value.(type) {
 		case *spec.Schema:
+			if refable == nil {
+				// pointer to a keyword the target does not define
+				return nil, ErrNoSchema(currentRef.String())
+			}
 			if refable.Ref.String() == "" {
 				break DOWNREF
 			}
@@ -375,12 +379,18 @@ DOWNREF:
 			currentRef = refable.Ref
 
 		case *spec.SchemaOrArray:
+			if refable == nil {
+				return nil, ErrNoSchema(currentRef.String())
+			}
 			if refable.Schema == nil || refable.Schema != nil && refable.Schema.Ref.String() == "" {
 				break DOWNREF
 			}
 			currentRef = refable.Schema.Ref
 
 		case *spec.SchemaOrBool:
+			if refable == nil {
+				return nil, ErrNoSchema(currentRef.String())
+			}
 			if refable.Schema == nil || refable.Schema != nil && refable.Schema.Ref.String() == "" {
 				break DOWNREF
 			}
